@@ -315,6 +315,115 @@ def h_nonlocal(n, L, G, lens, positions):
                      timeout_ms=60000, extra=dict(bounds=dict(n=n, L=L, groups=G)))
 
 
+@guard
+def h_option(kind, n, G, mode, m=3):
+    """option node above the leaf on the reduced axis: IndexedOptionArray64 / ByteMaskedArray :: reduce_next wired as in the C++
+    (numnull sizes nextcarry/nextparents; reduce_next_64 projects; [nextshifts]; leaf reducer; adjust_starts_shifts).
+    mode: 'sum' | 'argmin' (no incoming shifts) | 'argmin_shifts' (incoming shifts from an outer non-local level)"""
+    idx = kind == 'indexed'
+    K = (['awkward_IndexedArray64_numnull', 'awkward_IndexedArray64_reduce_next_64', 'awkward_IndexedArray64_reduce_next_nonlocal_nextshifts_64',
+          'awkward_IndexedArray64_reduce_next_nonlocal_nextshifts_fromshifts_64'] if idx else
+         ['awkward_ByteMaskedArray_numnull', 'awkward_ByteMaskedArray_reduce_next_64', 'awkward_ByteMaskedArray_reduce_next_nonlocal_nextshifts_64',
+          'awkward_ByteMaskedArray_reduce_next_nonlocal_nextshifts_fromshifts_64'])
+    leaf = ['awkward_reduce_sum_int64_int64_64', 'awkward_reduce_argmin_int64_64', 'awkward_NumpyArray_reduce_adjust_starts_shifts_64']
+    h = Harness(K + leaf, unwind=n + G + 6)
+    h.scalar('length', 'int64_t', n); h.scalar('outlength', 'int64_t', G)
+    if idx:
+        h.arr('index', 'int64_t', n, const=True)
+        for i in range(n):
+            h.assume(h.init('index', i) < m)
+        valid = [h.init('index', i) >= 0 for i in range(n)]
+        src = [h.init('index', i) for i in range(n)]
+        node = [('buf', 'index')]
+        vw = []
+    else:
+        h.arr('mask', 'int8_t', n, const=True); h.scalar('validwhen', 'bool')
+        valid = [(h.init('mask', i) != 0) == (h.scalars['validwhen'][0] == 1) for i in range(n)]
+        src = [BV(i) for i in range(n)]
+        m = n
+        node = [('buf', 'mask')]
+        vw = ['validwhen']
+    h.arr('parents', 'int64_t', n, const=True)
+    parents_premises(h, n, G)
+    h.arr('starts', 'int64_t', G, const=True)
+    for g in range(G):
+        first = BV(n)
+        for i in reversed(range(n)):
+            first = z3.If(h.init('parents', i) == g, BV(i), first)
+        h.assume(h.init('starts', g) == first)
+    h.arr('numnull', 'int64_t', 1)
+    h.kcall(K[0], [('buf', 'numnull')] + node + ['length'] + vw)
+    nn = h.out('numnull', 0)
+    for nm in ('nextcarry', 'nextparents'):
+        h.arr(nm, 'int64_t', n - nn, cap_c='%d - numnull[0]' % n)
+    h.arr('outindex', 'int64_t', n)
+    h.kcall(K[1], [('buf', 'nextcarry'), ('buf', 'nextparents'), ('buf', 'outindex')] + node + [('buf', 'parents'), 'length'] + vw)
+    h.scalar('nextlen', 'int64_t')
+    h.assume(h.scalars['nextlen'][0] == n - nn)
+    h.arr('content', 'int64_t', m, const=True)
+    h.arr('carried', 'int64_t', n - nn, const=True, cap_c='%d - numnull[0]' % n)
+    for k in range(n):
+        nc = h.out('nextcarry', k)
+        v = BV(0)
+        for j in range(m):
+            v = z3.If(nc == j, h.init('content', j), v)
+        h.assume(z3.Implies(k < n - nn, h.init('carried', k) == v))
+    h.arr('out', 'int64_t', G)
+    if mode == 'sum':
+        h.kcall(leaf[0], [('buf', 'out'), ('buf', 'carried'), ('buf', 'nextparents'), 'nextlen', 'outlength'])
+    else:
+        h.arr('nextshifts', 'int64_t', n - nn, cap_c='%d - numnull[0]' % n)
+        if mode == 'argmin_shifts':
+            h.arr('shifts', 'int64_t', n, const=True)
+            for i in range(n):
+                h.assume(h.init('shifts', i) >= 0, h.init('shifts', i) <= 1000)
+            h.kcall(K[3], [('buf', 'nextshifts')] + node + ['length'] + vw + [('buf', 'shifts')])
+        else:
+            h.kcall(K[2], [('buf', 'nextshifts')] + node + ['length'] + vw)
+        h.kcall(leaf[1], [('buf', 'out'), ('buf', 'carried'), ('buf', 'nextparents'), 'nextlen', 'outlength'])
+        h.kcall(leaf[2], [('buf', 'out'), 'outlength', ('buf', 'nextparents'), ('buf', 'starts'), ('buf', 'nextshifts')])
+
+    def oracle(io):
+        out = [('no error', z3.Or([io.err(k) for k in range(len(h.errs))]))]
+        if idx:
+            val = [io.x('index', i) >= 0 for i in range(n)]
+
+            def value(i):
+                v = BV(0)
+                for j in range(m):
+                    v = z3.If(io.x('index', i) == j, io.x('content', j), v)
+                return v
+        else:
+            val = [(io.x('mask', i) != 0) == io.sc('validwhen') for i in range(n)]
+
+            def value(i):
+                return io.x('content', i)
+        cnt = BV(0)
+        for i in range(n):
+            cnt = z3.If(val[i], cnt, cnt + 1)
+        out.append(('numnull counts the missing entries', io.y('numnull', 0) != cnt))
+        for g in range(G):
+            ing = [z3.And(io.x('parents', i) == g, val[i]) for i in range(n)]
+            if mode == 'sum':
+                exp = BV(0)
+                for i in range(n):
+                    exp = z3.If(ing[i], exp + value(i), exp)
+                out.append(('group %d: sum over the non-missing elements of the group' % g, io.y('out', g) != exp))
+            else:
+                best, bestv = BV(-1), None
+                for i in range(n):
+                    x = value(i)
+                    take = ing[i] if bestv is None else z3.And(ing[i], z3.Or(best == -1, x < bestv))
+                    bestv = x if bestv is None else z3.If(take, x, bestv)
+                    sh = io.x('shifts', i) if mode == 'argmin_shifts' else BV(0)
+                    best = z3.If(take, BV(i) + sh - io.x('starts', g), best)
+                out.append(('group %d: argmin position counts the missing entries before it' % g, io.y('out', g) != best))
+        return out
+    tw = [('a missing entry before a valid one', z3.And(z3.Not(valid[0]), valid[1]))] if n >= 2 else []
+    return discharge(h, 'reduce_next through %s option node, %s, n=%d G=%d' % ('IndexedOptionArray64' if idx else 'ByteMaskedArray', mode, n, G),
+                     oracle, tw, timeout_ms=60000, extra=dict(bounds=dict(n=n, groups=G)))
+
+
 LEAF_KERNELS = ['awkward_reduce_sum', 'awkward_reduce_prod', 'awkward_reduce_min', 'awkward_reduce_max', 'awkward_reduce_argmin',
                 'awkward_reduce_argmax', 'awkward_reduce_count_64', 'awkward_reduce_countnonzero', 'awkward_reduce_sum_bool',
                 'awkward_reduce_prod_bool', 'awkward_reduce_sum_int64_bool_64', 'awkward_reduce_sum_int32_bool_64']
@@ -344,6 +453,10 @@ def jobs(tier):
         else:
             for lens in itertools.product(range(3), repeat=n):
                 js.append((h_local, (n, 2, G, lens), 900))
+    for kind in ('indexed', 'bytemasked'):
+        for mode in ('sum', 'argmin', 'argmin_shifts'):
+            for n in range(1, N + 1):
+                js.append((h_option, (kind, n, G, mode), 1200))
     L = 2 if tier == 'quick' else 3
     for n in range(1, 4):
         for lens in itertools.product(range(L + 1), repeat=n):
